@@ -289,6 +289,38 @@ class Models:
         def wrap(vi, rs):
             return [(s, variant(vi, sub)) for (s, sub) in rs]
 
+        @reg("core::str::<impl str>::parse")
+        def str_parse(c):
+            """text.parse::<T>() for a crate-local T is T's FromStr impl: interpret it (numbers keep the default treatment)"""
+            prog = c.eng.prog
+            g = c.t["fn"].get("gargs") or []
+            if not g or prog.types[g[0]]["k"] != "adt":
+                return None
+            tp = prog.types[g[0]]["path"]
+            if "::" not in tp:
+                return None
+            crate, rest = tp.split("::", 1)
+            callee = prog.bodies.get("%s::<%s as std::str::FromStr>::from_str" % (crate, rest))
+            if callee is None or c.fr.depth >= c.eng.max_depth:
+                return None
+            ev2 = c.eng.synthetic_call_event(c.fr, c.bb, c.st, callee.path, [c.args[0]], (c.dest[0], c.dest[1]))
+            if c.ev is not None:
+                c.ev.inlined = True
+            outs = c.eng.inline(c.fr, c.bb, c.st, c.t, callee, [c.args[0]], c.dest, ev2, {})
+            return [s2 for (_, s2) in outs]
+
+        @reg("std::ops::FnOnce::call_once", "std::ops::FnMut::call_mut", "std::ops::Fn::call")
+        def call_callable(c):
+            """`f(args)` inside a generic helper (`F: FnOnce(..)`): MIR calls the trait method on the type parameter"""
+            tup = c.args[1][0]
+            idx = sorted(set(k[0] for k in tup if k and isinstance(k[0], int)))
+            arg_subs = [{k[1:]: v for k, v in tup.items() if k and k[0] == i} for i in idx]
+            outs = []
+            for (s2, sub) in c.invoke(c.st, 0, arg_subs):
+                c.set_dest(sub, s2)
+                outs.append(s2)
+            return outs
+
         @reg("std::result::Result::unwrap_or_else", "std::option::Option::unwrap_or_else")
         def unwrap_or_else(c):
             is_opt = "Option" in c.base
@@ -693,23 +725,8 @@ class Models:
             return [c.st]
 
         # ---------------- indexing (slices, Vec, arrays)
-        @reg("core::slice::index::<impl std::ops::Index<I> for [T]>::index",
-             "core::slice::index::<impl std::ops::IndexMut<I> for [T]>::index_mut",
-             "<std::vec::Vec<T, A> as std::ops::Index<I>>::index",
-             "<std::vec::Vec<T, A> as std::ops::IndexMut<I>>::index_mut",
-             "std::array::<impl std::ops::Index<I> for [T; N]>::index")
-        def index(c):
-            v = c.argv(0)
-            rk, start, end = c.range_arg(1)
-            if v[0] != "r":
-                return None
-            ln = c.eng.read_len(c.st, v[1], v[2])[1]
-            if rk is None:
-                # single element
-                i = c.eng.as_lin(c.argv(1), c.args[1][1])
-                c.eng.require(c.st, c.fr, c.bb, "index", "slice[i]: i < len", [lin.lt(i, ln)])
-                c.set_dest({(): ("r", v[1], v[2] + ("E",), v[3])})
-                return [c.st]
+        def range_bounds(rk, start, end, ln):
+            """(start, end (exclusive), constraints `start <= end <= len` as  e <= 0  terms) of slice[range]"""
             cons = []
             if rk == "RangeFull":
                 s, e = lin.const(0), ln
@@ -728,6 +745,26 @@ class Models:
             else:
                 s, e = start, end
                 cons = [lin.le(s, e), lin.le(e, ln)]
+            return s, e, cons
+
+        @reg("core::slice::index::<impl std::ops::Index<I> for [T]>::index",
+             "core::slice::index::<impl std::ops::IndexMut<I> for [T]>::index_mut",
+             "<std::vec::Vec<T, A> as std::ops::Index<I>>::index",
+             "<std::vec::Vec<T, A> as std::ops::IndexMut<I>>::index_mut",
+             "std::array::<impl std::ops::Index<I> for [T; N]>::index")
+        def index(c):
+            v = c.argv(0)
+            rk, start, end = c.range_arg(1)
+            if v[0] != "r":
+                return None
+            ln = c.eng.read_len(c.st, v[1], v[2])[1]
+            if rk is None:
+                # single element
+                i = c.eng.as_lin(c.argv(1), c.args[1][1])
+                c.eng.require(c.st, c.fr, c.bb, "index", "slice[i]: i < len", [lin.lt(i, ln)])
+                c.set_dest({(): ("r", v[1], v[2] + ("E",), v[3])})
+                return [c.st]
+            s, e, cons = range_bounds(rk, start, end, ln)
             c.eng.require(c.st, c.fr, c.bb, "range", "slice[%s]: start <= end <= len" % rk, cons)
             if c.eng.record:
                 c.eng.index_log.append((c.node, c.fr.id, rk, s, e))
@@ -757,6 +794,22 @@ class Models:
             lo = c.eng.read(c.st, r[1], r[2] + (0,))
             hi = c.eng.read(c.st, r[1], r[2] + (1,))
             xv = c.eng.read(c.st, x[1], x[2])
+            if xv[0] != "i" and lo[0] == "i" and hi[0] == "i":
+                # an item not read before (e.g. a field of an element reached through iter_mut): read it at the range's index type
+                prog = c.eng.prog
+                xti = None
+                for cand in (c.args[1][1], c.args[0][1]):
+                    if cand is None:
+                        continue
+                    tt = prog.types[prog.peel_refs(cand)]
+                    if tt["k"] == "int":
+                        xti = prog.peel_refs(cand)
+                    elif tt["k"] == "adt" and tt.get("args") and prog.types[tt["args"][0]]["k"] == "int":
+                        xti = tt["args"][0]
+                    if xti is not None:
+                        break
+                if xti is not None:
+                    xv = c.eng.read(c.st, x[1], x[2], xti)
             if lo[0] != "i" or hi[0] != "i" or xv[0] != "i":
                 return None
             incl = "Inclusive" in c.base
@@ -879,6 +932,34 @@ class Models:
         def slice_get(c):
             """slice.get(i) with an integer index: Some(&slice[i]) iff i < len; a small constant array is split by index"""
             v, iv = c.argv(0), c.argv(1)
+            if v[0] == "r" and iv[0] != "i":
+                # slice.get(a..b): Some(&slice[a..b]) iff a <= b <= len
+                rk, start, end = c.range_arg(1)
+                if rk is None:
+                    return None
+                ln = c.eng.read_len(c.st, v[1], v[2])[1]
+                s, e, cons = range_bounds(rk, start, end, ln)
+                outs = []
+                s2 = c.st.fork()
+                if not s2.ctx.infeasible_with(cons):
+                    for cc in cons:
+                        s2.ctx.add(cc)
+                    if c.eng.record:
+                        c.eng.index_log.append((c.node, c.fr.id, rk, s, e))
+                    root = ("H", c.site)
+                    s2.store[root] = {("$len",): I(lin.sub(e, s)), ("$slice_of",): ("r", v[1], v[2], False), ("$slice_from",): I(s)}
+                    c.set_dest({("$discr",): ICONST(1), (("v", 1), 0): ("r", root, (), v[3])}, s2)
+                    outs.append(s2)
+                for j, cc in enumerate(cons):
+                    s3 = c.st.fork()
+                    neg = [lin.lt(lin.const(0), cc)] + cons[:j]       # cc is  e <= 0 ; its negation  0 < e
+                    if s3.ctx.infeasible_with(neg):
+                        continue
+                    for x_ in neg:
+                        s3.ctx.add(x_)
+                    c.set_dest({("$discr",): ICONST(0)}, s3)
+                    outs.append(s3)
+                return outs
             if v[0] != "r" or iv[0] != "i":
                 return None
             ln = c.eng.read_len(c.st, v[1], v[2])
